@@ -383,7 +383,10 @@ def check_defined(chk, item, seed, tier):
                 import time
 
                 t0 = time.time()
-                r = str(s.check())
+                from yv.engine import watchdog
+
+                with watchdog.watch(tmo, lab):
+                    r = str(s.check())
                 chk.prover.queries += 1
                 chk.prover.secs += time.time() - t0
                 chk.evaluations += 1
